@@ -187,6 +187,40 @@ def run(tier, seed, replay=None):
             cases.append({"id": "imp%03d" % k_, "settings": st, "history": [{"op": "root", "schema": doc}],
                           "opts": {"has_impl": True}})
             k_ += 1
+    # uses_* flags are sticky per TypeSpace, so each construct that puts an external crate path into the output is
+    # also run alone (nothing else in the document can have set the flag for it)
+    lone = {
+        "any_true": True, "any_empty": {}, "array_no_items": {"type": "array"},
+        "array_items_true": {"type": "array", "items": True},
+        "set_no_items": {"type": "array", "uniqueItems": True},
+        "set_no_items_bounded": {"type": "array", "uniqueItems": True, "minItems": 1, "maxItems": 4},
+        "set_items_true": {"type": "array", "uniqueItems": True, "items": {}},
+        "map_any": {"type": "object"}, "map_true": {"type": "object", "additionalProperties": True},
+        "map_pattern_any": {"type": "object", "patternProperties": {"^x-": {}}, "additionalProperties": False},
+        "tuple_with_any": {"type": "array", "items": [{"type": "string"}, {}], "minItems": 2, "maxItems": 2},
+        "required_without_schema": {"type": "object", "required": ["r"], "properties": {"s": {"type": "string"}}},
+        "option_any": {"type": "object", "properties": {"o": {}}},
+        "multi_type": {"type": ["string", "integer", "array"]},
+        "default_any": {"type": "object", "properties": {"d": {"default": {"k": [1]}}}},
+        "date": {"type": "string", "format": "date"}, "date_time": {"type": "string", "format": "date-time"},
+        "uuid": {"type": "string", "format": "uuid"},
+        "pattern": {"type": "string", "pattern": "^[a-z]+$"},
+        "enum_pattern": {"type": "string", "enum": ["ab", "cd"], "pattern": "^[a-z]+$"},
+        "default_date": {"type": "object", "properties": {"d": {"type": "string", "format": "date", "default": "2020-01-02"}}},
+        "default_uuid": {"type": "object", "properties": {"u": {"type": "string", "format": "uuid",
+                                                              "default": "6ba7b810-9dad-11d1-80b4-00c04fd430c8"}}},
+    }
+    for j, (nm, sch) in enumerate(lone.items()):
+        for wrap in ("def", "member", "item"):
+            if wrap == "def":
+                doc = {"definitions": {"Lone": sch}} if isinstance(sch, dict) and sch else \
+                    {"definitions": {"Lone": {"type": "object", "properties": {"m": sch}, "required": ["m"]}}}
+            elif wrap == "member":
+                doc = {"definitions": {"Lone": {"type": "object", "properties": {"m": sch}, "required": ["m"]}}}
+            else:
+                doc = {"definitions": {"Lone": {"type": "array", "items": sch}}}
+            cases.append({"id": "lone_%s_%s" % (nm, wrap), "settings": {"struct_builder": j % 2 == 0},
+                          "history": [{"op": "root", "schema": doc}], "opts": {"has_impl": True}})
     for name, doc in workloads.load_fixtures():
         st = {"struct_builder": True}
         if name == "x-rust-type":
